@@ -183,6 +183,30 @@ def write_replay(pid, payload):
     return path
 
 
+ESCALATION_BUDGET_S = 300
+
+
+class _Deadline(Exception):
+    pass
+
+
+def run_with_deadline(run_fn, fn, tier, seconds):
+    """bounded failing-input search: an oracle that does not finish in time counts as 'nothing found'"""
+    import signal
+
+    def on_alarm(signum, frame):
+        raise _Deadline()
+    old = signal.signal(signal.SIGALRM, on_alarm)
+    signal.alarm(seconds)
+    try:
+        return run_fn(fn, tier)
+    except _Deadline:
+        return {"name": fn.__name__, "evaluations": 0, "distinct": 0, "note": f"escalated search stopped after {seconds}s"}
+    finally:
+        signal.alarm(0)
+        signal.signal(signal.SIGALRM, old)
+
+
 def check(pid, tier, seed):
     t0 = time.time()
     mod = importlib.import_module(f"props.{pid.lower()}")
@@ -223,7 +247,7 @@ def check(pid, tier, seed):
         try:
             return fn(seed, t)
         except BaseException as e:  # noqa: BLE001
-            if isinstance(e, KeyboardInterrupt):
+            if isinstance(e, (KeyboardInterrupt, _Deadline)):
                 raise
             return {"name": fn.__name__, "evaluations": 0, "distinct": 0, "crash": f"{type(e).__name__}: {e}",
                     "trace": traceback.format_exc()[-1500:]}
@@ -243,7 +267,7 @@ def check(pid, tier, seed):
         notes.append("tie broken: failing-input search escalated to the thorough oracle parameters")
         for fn in mod.checks("thorough"):
             if fn.__name__.startswith("oracle"):
-                r = run_fn(fn, "thorough")
+                r = run_with_deadline(run_fn, fn, "thorough", ESCALATION_BUDGET_S)
                 r["name"] = r.get("name", fn.__name__) + " [escalated search]"
                 results.append(r)
 
